@@ -185,6 +185,11 @@ def check_case(acc: Acc, case: dict) -> None:
 
 
 SPECIAL = [
+	# physical lines of more than a thousand (and exactly a thousand) columns, a module of more than a thousand lines
+	'table = [' + ', '.join(str(i) for i in range(450)) + ']\nafter = table\n',
+	"s = '" + 'x' * (1000 - len("s = '") - 1) + "'\nt = s\n",
+	"s = '" + 'y' * 2500 + "' + tail\n",
+	''.join(f'v{i} = {i}\n' for i in range(1100)) + 'last = v1099\n',
 	'def f() -> None:\n\treturn\n',
 	'def f(a: int,) -> int:\n\treturn a\n',
 	'class X:\n\tpass\n',
